@@ -5,9 +5,11 @@ package mount
 // Contracts for gocv (see /verif/DESIGN.md). Comment-only; compiled only with
 // the build tag "verif". Model M (mount system calls) is in /verif/spec/container_M.contracts.
 
-//@ func pkg/mount.ensureMountTargetExists
-//@   trusted "creates the mount point (mkdir -p / mknod); file-system effects only"
-//@   pure
+// creates the mount point (mkdir -p, or mknod for a file source): verified for memory safety (no nil
+// FileInfo is touched on a failed stat); its effects are file-system entries only
+//@ func pkg/mount.ensureMountTargetExists props C05
+//@   arith int
+//@   assigns nothing
 
 // C05: a configured mount that succeeds was issued with exactly its own source, target, type, flags
 // and data; a read-only bind mount is then remounted on the same target with at least its own flags
@@ -70,10 +72,12 @@ package mount
 
 // ToSyscall / Build: the raw parameters handed to the child's mount loop are the configured mount, field by
 // field (cstr = the C string a *byte points at); no data pointer for an empty Data string
-//@ func pkg/mount.pathPrefix
-//@   trusted "all prefixes of the path ending at a slash, then the path itself (string slicing only)"
-//@   pure
-//@   ensures len(result) >= 1
+// all prefixes of the path ending before a slash, then the path itself
+//@ func pkg/mount.pathPrefix props C05
+//@   arith int
+//@   assigns nothing
+//@   ensures len(result) >= 1 && result[len(result) - 1] == path
+//@   loop 0: invariant 1 <= i && (i <= len(path) || len(path) == 0) && len(ret) >= 0
 //@ func pkg/mount.arrayPtrFromStrings props C05
 //@   arith int
 //@   assigns nothing
